@@ -188,7 +188,9 @@ static std::string xfield(const Case& cs, Cur& cu)
 template<int n, class X, class Y> static std::string mixScale(const X& x, const Y& y, const K& k)
 {
   if constexpr (n == 1 && C01_FIELD == 2) throw std::runtime_error("FieldVector<double,1> * complex is not instantiated (no such overload)");
-  else { auto z1 = x * k; auto z2 = k * x; FV<n> w1(z1), w2(z2); return obs(same({show(w1), show(w2)}), showVS(x), show(y)); }
+  else { auto z1 = x * k; auto z2 = k * x;
+    if constexpr (n > 1) static_assert(std::is_same_v<decltype(z1), FV<n>> && std::is_same_v<decltype(z2), FV<n>>, "promoted type of vector * scalar");
+    FV<n> w1(z1), w2(z2); return obs(same({show(w1), show(w2)}), showVS(x), show(y)); }
 }
 // arithmetic mixing the two field types (PromotionTraits): first operand over S, second over K
 static std::string xmix(const Case& cs, Cur& cu)
@@ -199,6 +201,9 @@ static std::string xmix(const Case& cs, Cur& cu)
   if (cs.r != R) throw std::runtime_error("wrong TU");
   if (op == "xmixdot" || op == "xmixdotT" || op == "xmixscale" || op == "xmixaxpy" || op == "xmixvadd") {
     FVS<R> x; loadVS(x, R, cu); FV<R> y; loadV(y, R, cu);
+    // PromotionTraits: the result type of a mixed operation is the promoted type (here always K)
+    static_assert(std::is_same_v<decltype(x * y), K> && std::is_same_v<decltype(y * x), K> && std::is_same_v<decltype(x.dot(y)), K>, "promoted type of vector products");
+    static_assert(std::is_same_v<typename PromotionTraits<S, K>::PromotedType, K> && std::is_same_v<typename PromotionTraits<K, S>::PromotedType, K>, "PromotionTraits");
     if (op == "xmixdotT") { K d1 = x * y; K d2 = y * x; return obs(same({show(d1), show(d2)}), showVS(x), show(y)); }
     if (op == "xmixdot") { K d1 = x.dot(y); K d2 = Dune::dot(x, y); return obs(same({show(d1), show(d2)}), showVS(x), show(y)); }
     if (op == "xmixscale") return mixScale<R>(x, y, k);
@@ -209,12 +214,15 @@ static std::string xmix(const Case& cs, Cur& cu)
   withDim(cs.c, [&](auto C) {
     constexpr int c = decltype(C)::value;
     FMS<R, c> A; loadMS(A, R, c, cu);
+    static_assert(std::is_same_v<decltype(A + FM<R, c>()), FM<R, c>> && std::is_same_v<decltype(FM<R, c>() - A), FM<R, c>> &&
+                  std::is_same_v<decltype(A * K()), FM<R, c>> && std::is_same_v<decltype(K() * A), FM<R, c>>, "promoted type of matrix operators");
     if (op == "xmixadd") { FM<R, c> B; loadM(B, R, c, cu); auto Z = A + B; auto Z2 = B + A; FM<R, c> z(Z), z2(Z2); out = obs(same({show(z), show(z2)}), showMS(A), show(B)); return; }
     if (op == "xmixsub") { FM<R, c> B; loadM(B, R, c, cu); auto Z = A - B; FM<R, c> z(Z); out = obs(show(z), showMS(A), show(B)); return; }
     if (op == "xmixmscale") { auto Z = A * k; auto Z2 = k * A; FM<R, c> z(Z), z2(Z2); out = obs(same({show(z), show(z2)}), showMS(A), "-"); return; }
     if (op == "xmixumv") { FVS<c> x; loadVS(x, c, cu); FV<R> y; loadV(y, R, cu); A.umv(x, y); out = obs(show(y), showMS(A), showVS(x)); return; }
     withDim(cs.p, [&](auto P) {
       constexpr int p = decltype(P)::value;
+      static_assert(std::is_same_v<decltype(A * FM<c, p>()), FM<R, p>>, "promoted type of matrix * matrix");
       if (op == "xmixmul") { FM<c, p> B; loadM(B, c, p, cu); auto Z = A * B; FM<R, p> z(Z); out = obs(show(z), showMS(A), show(B)); }
       else throw std::runtime_error("xmix op");
     });
